@@ -71,20 +71,56 @@ theorem range_eq_spec (a b : Int) : rangeTo a b = Spec.rangeTo a b := rangeTo_eq
 theorem select_with_focus_eq_spec {α : Type} (xs : List α) :
     selectWithFocus xs = (Spec.positions xs).map fun t => (t.2, xs.length, t.1) := selectWithFocus_eq xs
 
-/-- fn:index-of: the positions of the items `eq` to the search value (non-comparable items,
-e.g. a boolean and a number, are distinct). -/
+/-- fn:index-of on the atomized sequence: the positions of the items `eq` to the search value —
+numbers after promotion, xs:untypedAtomic as xs:string, non-comparable items (a boolean and a
+number, a string and a number) distinct, NaN equal to nothing, -0 equal to +0. -/
 theorem index_of_eq_spec (xs : Seq) (v : Atom) : indexOf xs v = Spec.indexOf xs v := indexOf_eq xs v
 
-/-- fn:distinct-values: the loop with its NaN flag and `results` list keeps exactly the first
-occurrence of every class of equal values (NaN equal to NaN). -/
+/-- fn:distinct-values: the loop with its NaN flag and its list of keys keeps exactly the items
+that are not equal to an item kept before (NaN equal to NaN, -0 equal to +0, xs:untypedAtomic as
+xs:string, numbers after promotion). -/
 theorem distinct_values_eq_spec (xs : Seq) : distinctValues xs = Spec.distinctValues xs :=
   distinctValues_eq xs
 
 /-- fn:sum, one- and two-argument form: type dispatch, integer / double result, NaN, FORG0006. -/
-theorem sum_eq_spec (xs : Seq) (zero : Option Seq) : fnSum xs zero = Spec.fnSum xs zero := fnSum_eq xs zero
+theorem sum_eq_spec (xs : Seq) (zero : Option Seq) : fnSum xs zero = Spec.fnSum Spec.pySum xs zero :=
+  fnSum_eq xs zero
 
-/-- fn:avg (the exact quotient) -/
-theorem avg_eq_spec (xs : Seq) : fnAvg xs = Spec.fnAvg xs := fnAvg_eq xs
+/-- fn:avg: dispatch, exact decimal sum, 28-digit decimal division, double division; the sum of
+doubles is CPython's compensated sum (`Spec.pySum`). -/
+theorem avg_eq_spec (xs : Seq) : fnAvg xs = Spec.fnAvg Spec.pySum xs := fnAvg_eq xs
+
+/-- PARTIAL (known finding F08q).  fn:sum equals the F&O definition (`$c[1] + fn:sum(…)`, every
+addition rounded) when the compensated sum of the promoted values equals that fold.  The full
+statement is false: `sum_compensated_differs`. -/
+theorem sum_eq_fo_partial (xs : Seq) (zero : Option Seq) (h : Spec.sumAgrees xs = true) :
+    fnSum xs zero = Spec.fnSum Spec.foSum xs zero := by
+  rw [fnSum_eq]
+  have h' : Spec.pySum.sumD (xs.map Spec.toDouble) = Spec.foSum.sumD (xs.map Spec.toDouble) := by
+    simpa [Spec.sumAgrees] using h
+  unfold Spec.fnSum
+  simp only [h']
+
+/-- the same for fn:avg -/
+theorem avg_eq_fo_partial (xs : Seq) (h : Spec.avgAgrees xs = true) :
+    fnAvg xs = Spec.fnAvg Spec.foSum xs := by
+  rw [fnAvg_eq]
+  have h' : Spec.pySum.avgD xs = Spec.foSum.avgD xs := by simpa [Spec.avgAgrees] using h
+  unfold Spec.fnAvg
+  simp only [h']
+
+set_option maxRecDepth 8000 in
+/-- F08q witness: `sum((1e0, 1e0, 9007199254740992e0))` — the compensated sum is exact
+(2^53 + 2), the F&O fold `1 + (1 + 2^53)` loses both ones. -/
+theorem sum_compensated_differs :
+    let xs : Seq := [.dbl (.fin 1 0), .dbl (.fin 1 0), .dbl (.fin 9007199254740992 0)]
+    Spec.sumAgrees xs = false ∧ fnSum xs none = .ok [.dbl (.fin 9007199254740994 0)] ∧
+      Spec.fnSum Spec.foSum xs none = .ok [.dbl (.fin 9007199254740992 0)] := ⟨by decide, by rfl, by rfl⟩
+
+set_option maxRecDepth 8000 in
+/-- the hypothesis of the partial theorems holds on a non-trivial input: `(1.5e0, 2, 0.25)` -/
+example : Spec.sumAgrees [.dbl (.fin 3 1), .int 2, .dec 25 2] = true ∧
+    Spec.avgAgrees [.dbl (.fin 3 1), .int 2, .dec 25 2] = true := by decide
 
 /-- fn:min / fn:max: dispatch on strings / booleans / integers / doubles, NaN, FORG0006 for
 mixed kinds; Python's `min`/`max` pick the same element as the specification's fold. -/
@@ -92,8 +128,8 @@ theorem min_max_eq_spec (isMax : Bool) (xs : Seq) : fnMinMax isMax xs = Spec.fnM
   fnMinMax_eq isMax xs
 
 /-- fn:string-join -/
-theorem string_join_eq_spec (xs : Seq) (sep : Option Seq) :
-    fnStringJoin xs sep = Spec.fnStringJoin xs sep := fnStringJoin_eq xs sep
+theorem string_join_eq_spec (doc : List String) (xs : Seq) (sep : Option Seq) :
+    fnStringJoin doc xs sep = Spec.fnStringJoin doc xs sep := fnStringJoin_eq doc xs sep
 
 /-- effective boolean value of a sequence of atomic items -/
 theorem ebv_eq_spec (s : Seq) : ebv s = Spec.ebv s := ebv_eq s
@@ -105,7 +141,8 @@ theorem predicate_eq_spec (pos : Nat) (v : Seq) : predicateKeeps pos v = Spec.pr
 
 /-- all one-, two-, three-argument functions at once, including argument conversion errors -/
 theorem apply_eq_spec :
-    (∀ f v, applyFn1 f v = Spec.applyFn1 f v) ∧ (∀ f a b, applyFn2 f a b = Spec.applyFn2 f a b) ∧
+    (∀ doc f v, applyFn1 doc f v = Spec.applyFn1 Spec.pySum doc f v) ∧
+    (∀ doc f a b, applyFn2 doc f a b = Spec.applyFn2 Spec.pySum doc f a b) ∧
     (∀ f a b c, applyFn3 f a b c = Spec.applyFn3 f a b c) :=
   ⟨applyFn1_eq, applyFn2_eq, applyFn3_eq⟩
 
@@ -132,25 +169,29 @@ example : iterProduct (σ := List (List (Nat × Seq)))
 
 /-- **Headline.**  For every expression built from literals, variables, `.`, `position()`,
 `last()`, `,`, `to`, predicates, `!`, `for` / `some` / `every` with any number of variables,
-the modelled functions, value comparisons, `and` / `or`, `+ - *`, `if`, and for every dynamic
-context: the evaluator transcribed from the token `select` methods returns the value (or error)
-of the XPath semantics.  Nested compositions — predicate in `for` in predicate — included. -/
-theorem eval_eq_sem (e : Expr) (c : Ctx) : eval e c = Spec.sem e c := EPV.Seq.eval_eq_sem e c
+the modelled functions, value comparisons, `and` / `or`, `+ - *`, `if`, over items that are
+integers, decimals, doubles (NaN, ±INF, ±0), strings, booleans, untypedAtomic values and nodes,
+and for every dynamic context: the evaluator transcribed from the token `select` methods returns
+the value (or error) of the XPath semantics.  Nested compositions — predicate in `for` in
+predicate — included.  The semantics is taken with `Spec.pySum`: the sum of a sequence of doubles
+in fn:sum / fn:avg is CPython's compensated sum (finding F08q; `eval_eq_sem_fo` removes it for
+expressions without fn:sum / fn:avg). -/
+theorem eval_eq_sem (e : Expr) (c : Ctx) : eval e c = Spec.sem Spec.pySum e c := EPV.Seq.eval_eq_sem e c
 
 /-- PARTIAL (known finding F08b).  Parsing plus evaluation agrees with the semantics when no
 clause variable's name occurs in its own range expression.  The full statement
 `parseEval e c = Spec.sem e c` is false: see `loop_var_check_rejects_valid`. -/
 theorem parse_eval_eq_sem_partial (e : Expr) (c : Ctx) (h : e.loopVarInRange = false) :
-    parseEval e c = Spec.sem e c := by
+    parseEval e c = Spec.sem Spec.pySum e c := by
   simp [parseEval, h, EPV.Seq.eval_eq_sem]
 
 /-- F08b witness: `for $v0 in $v0 return $v0` with `$v0 := (3, 1, 2)` in scope is rejected with
 XPST0008 although its value is `(3, 1, 2)`. -/
 theorem loop_var_check_rejects_valid :
     let e := Expr.forE (.one 0 (.var 0)) (.var 0)
-    let c : Ctx := { item := some (.int 7), pos := 1, size := 1, vars := [(0, [.int 3, .int 1, .int 2])] }
+    let c : Ctx := { item := some (.int 7), pos := 1, size := 1, vars := [(0, [.int 3, .int 1, .int 2])], doc := [] }
     e.loopVarInRange = true ∧ parseEval e c = .error .XPST0008 ∧
-      Spec.sem e c = .ok [.int 3, .int 1, .int 2] := ⟨by rfl, by rfl, by rfl⟩
+      Spec.sem Spec.foSum e c = .ok [.int 3, .int 1, .int 2] := ⟨by rfl, by rfl, by rfl⟩
 
 /-- the hypothesis of the partial theorem holds on a non-trivial expression:
 `for $v1 in $v0, $v2 in (1 to $v1) return $v2` -/
@@ -190,8 +231,8 @@ theorem range_mem (a b i : Int) : i ∈ rangeTo a b ↔ a ≤ i ∧ i ≤ b := b
 + round(b)]` on the model side too (the loop of the implementation, not only the definition) -/
 theorem subsequence_as_filter {α : Type} (xs : List α) (a b : D) :
     subsequence3 xs a b =
-      Spec.filterPos (fun i => decide (Spec.leD (Spec.roundD a) (Spec.ofPos i)) &&
-        decide (Spec.ltD (Spec.ofPos i) (Spec.addD (Spec.roundD a) (Spec.roundD b)))) xs :=
+      Spec.filterPos (fun i => Spec.leD (Spec.roundD a) (Spec.ofPos i) &&
+        Spec.ltD (Spec.ofPos i) (D.add (Spec.roundD a) (Spec.roundD b))) xs :=
   subsequence3_eq xs a b
 
 /-- `every $x… satisfies P` = `not(some $x… satisfies not(P))`: for every clause (any number of
@@ -199,7 +240,7 @@ variables, dependent ranges), every test expression and every context — value 
 as computed by the implementation's evaluator. -/
 theorem every_not_some_not (bs : Binds) (t : Expr) (c : Ctx) :
     eval (.everyE bs t) c = eval (.fn1 .not_ (.someE bs (.fn1 .not_ t))) c := by
-  rw [EPV.Seq.eval_eq_sem, EPV.Seq.eval_eq_sem]; exact sem_every_not_some_not bs t c
+  rw [EPV.Seq.eval_eq_sem, EPV.Seq.eval_eq_sem]; exact sem_every_not_some_not Spec.pySum bs t c
 
 /-- a clause with several variables is the nesting of single-variable clauses:
 `for $x in E1, $y in E2… return R` = `for $x in E1 return (for $y in E2… return R)` -/
@@ -213,13 +254,13 @@ theorem some_multi_eq_nested (x : Nat) (e : Expr) (rest : Binds) (t : Expr) (c :
     eval (.someE (.cons x e rest) t) c = eval (.someE (.one x e) (.someE rest t)) c := by
   rw [EPV.Seq.eval_eq_sem, EPV.Seq.eval_eq_sem]
   simp only [Spec.sem, Spec.semSome]
-  cases Spec.sem e c with
+  cases Spec.sem Spec.pySum e c with
   | error err => rfl
   | ok s =>
     simp only [bind, Except.bind]
     congr 2
     funext v
-    generalize Spec.semSome rest (Spec.bind1 c x v) _ = r
+    generalize Spec.semSome Spec.pySum rest (Spec.bind1 c x v) _ = r
     cases r with
     | error err => rfl
     | ok b => cases b <;> rfl
@@ -252,7 +293,7 @@ theorem predicate_position (S : Expr) (n : Int) (c : Ctx) :
     eval (.filter S (.lit (.int n))) c = eval (.filter S (.cmp .eq .position (.lit (.int n)))) c := by
   rw [EPV.Seq.eval_eq_sem, EPV.Seq.eval_eq_sem]
   simp only [Spec.sem]
-  cases Spec.sem S c with
+  cases Spec.sem Spec.pySum S c with
   | error e => rfl
   | ok s =>
     simp only [bind, Except.bind]
@@ -263,71 +304,40 @@ theorem predicate_last (S : Expr) (c : Ctx) :
     eval (.filter S .last) c = (eval S c).map fun s => s.drop (s.length - 1) := by
   rw [EPV.Seq.eval_eq_sem, EPV.Seq.eval_eq_sem]
   simp only [Spec.sem]
-  cases Spec.sem S c with
+  cases Spec.sem Spec.pySum S c with
   | error e => rfl
   | ok s =>
-    simp only [bind, Except.bind, Spec.predicateTruth]
-    have : (fun t : Atom × Nat => (Except.ok (decide (Spec.eqD (Spec.ofPos t.2) (D.fin (s.length : Int) 0))) : Except Err Bool))
+    simp only [bind, Except.bind, Spec.predicateTruth, Spec.kind, beq_self_eq_true, if_true, Spec.exact,
+      Int.ofNat_eq_natCast]
+    have : (fun t : Atom × Nat => (Except.ok (XV.eqv (.q (t.2 : Int) 1) (.q (s.length : Int) 1)) : Except Err Bool))
         = fun t => Except.ok ((fun t : Atom × Nat => decide (t.2 + 1 = 1 + s.length)) t) := by
       funext t
       congr 1
+      simp only [XV.eqv]
       apply decide_eq_decide.mpr
-      simp only [Spec.eqD, Spec.ofPos]
-      simp only [Int.ofNat_eq_natCast]
       omega
     rw [this, keepWhere_pure]
     simp only [Except.map, pure, Except.pure]
     congr 1
     exact filter_last_idx s 1
 
-/-- fn:distinct-values satisfies the constraints of F&O §14.2.1: the result is a subsequence of the
-input (first occurrences, in order), (a) no two result items are equal, (b) every input item is
-equal to some result item. -/
-theorem distinct_values_constraints (xs : Seq) :
+/-- fn:distinct-values satisfies the constraints of F&O §14.2.1 on every atomized sequence —
+also when `eq` is not transitive on it: the result is a subsequence of the input, (a) no two
+result items are equal, (b) every input item is equal to some result item. -/
+theorem distinct_values_constraints (xs : Seq) (hatom : ∀ z ∈ xs, Spec.kind z ≠ .node) :
     List.Sublist (distinctValues xs) xs ∧
     List.Pairwise (fun a b => Spec.sameValue a b = false) (distinctValues xs) ∧
     (∀ z ∈ xs, ∃ y ∈ distinctValues xs, Spec.sameValue y z = true) := by
   rw [distinctValues_eq]
-  exact ⟨distinct_sublist xs, distinct_pairwise xs, distinct_covers xs⟩
+  refine ⟨distinctFrom_sublist xs [], distinctFrom_pairwise xs [], ?_⟩
+  intro z hz
+  unfold Spec.distinctValues
+  simpa using distinctFrom_covers xs hatom [] z hz
 
 /-- fn:max on a non-empty sequence of integers returns an item of the sequence that is
 greater than or equal to every item -/
 theorem max_integers (n : Int) (ns : List Int) :
     ∃ m, fnMinMax true ((n :: ns).map Atom.int) = .ok [.int m] ∧ m ∈ n :: ns ∧ ∀ y ∈ n :: ns, y ≤ m := by
   exact ⟨Spec.extremum (fun x y => decide (x < y)) true n ns, fnMinMax_ints n ns, extremum_int_max n ns⟩
-
-/-- the predicate of the F&O definition of fn:subsequence as an expression:
-`round(a) le position() and position() lt round(a) + round(b)` -/
-def subsequencePredicate (a b : D) : Expr :=
-  .andE (.cmp .le (.fn1 .round (.lit (.dbl a))) .position)
-        (.cmp .lt .position (.arith .add (.fn1 .round (.lit (.dbl a))) (.fn1 .round (.lit (.dbl b)))))
-
-theorem sem_subsequencePredicate (a b : D) (c : Ctx) :
-    Spec.sem (subsequencePredicate a b) c =
-      .ok [.bool (decide (Spec.leD (Spec.roundD a) (Spec.ofPos c.pos)) &&
-        decide (Spec.ltD (Spec.ofPos c.pos) (Spec.addD (Spec.roundD a) (Spec.roundD b))))] := by
-  simp only [subsequencePredicate, Spec.sem, Spec.applyFn1, Spec.fnRound, Except.bind, bind, Spec.atMostOne,
-    Spec.compareAtoms, Spec.eqAtom?, Spec.ltAtom?, Spec.kind, Spec.numVal, and_self, if_true, Spec.ebv,
-    pure, Except.pure, Spec.numericOperand, Spec.arith, leD_decide]
-  simp only [Spec.ofPos, Int.ofNat_eq_natCast]
-  by_cases h1 : Spec.ltD (Spec.roundD a) (D.fin (↑c.pos) 0) <;>
-  by_cases h2 : Spec.eqD (Spec.roundD a) (D.fin (↑c.pos) 0) <;>
-  by_cases h3 : Spec.ltD (D.fin (↑c.pos) 0) (Spec.addD (Spec.roundD a) (Spec.roundD b)) <;>
-  simp [h1, h2, h3]
-
-/-- **The equivalence of the property statement, for the evaluator.**
-`subsequence(S, a, b)` = `S[round(a) le position() and position() lt round(a) + round(b)]` for
-every expression `S`, all doubles `a`, `b` and every context. -/
-theorem subsequence_equiv_filter_expr (S : Expr) (a b : D) (c : Ctx) :
-    eval (.fn3 .subseq S (.lit (.dbl a)) (.lit (.dbl b))) c = eval (.filter S (subsequencePredicate a b)) c := by
-  rw [EPV.Seq.eval_eq_sem, EPV.Seq.eval_eq_sem]
-  simp only [Spec.sem, sem_subsequencePredicate, bind, Except.bind]
-  cases Spec.sem S c with
-  | error e => rfl
-  | ok s =>
-    simp only [Spec.applyFn3, Spec.asDouble, Except.bind, Except.map, Spec.predicateTruth, Spec.ebv]
-    rw [keepWhere_pure (fun t : Atom × Nat => decide (Spec.leD (Spec.roundD a) (Spec.ofPos t.2)) &&
-        decide (Spec.ltD (Spec.ofPos t.2) (Spec.addD (Spec.roundD a) (Spec.roundD b))))]
-    rfl
 
 end EPV.C08
